@@ -137,6 +137,13 @@ def run_dbg(ctx):
     return l1_both(ctx, miri_shards=MIRI_SHARDS.get(ctx.pid, 0))
 
 
+def run_c16(ctx):
+    import l2
+    res = run_dbg(ctx)
+    l2.c16_cli(ctx, res)
+    return res
+
+
 DBG_ASSUME = COMMON_ASSUMPTIONS + [
     "the reference debugger model (refdbg.rs) encodes the property texts; `step` on an instruction that changes PC accepts both documented readings (DESIGN.md section 3)",
     "debugger sessions are driven through the public API (debugger::Options{command}) with stdin at end of file; the interactive terminal reader is covered by C20 only",
@@ -194,10 +201,10 @@ PROPS = {
         "assumptions": DBG_ASSUME,
     },
     "C16": {
-        "run": run_dbg,
+        "run": run_c16,
         "level": "exploration",
         "design_ref": "DESIGN.md section 4 C16",
-        "level_text": "Bounded-progress monitor (the decidable restatement of the liveness claim): for every session the run-loop iteration count (tick hook) must stay within 2*(instructions executed + commands read + 1) + 8, and a session whose reference model terminates must terminate; non-termination is decided on logical iterations (fuel), never wall clock. Workload: programs that reach PC=0xFFFF by computed jump, PC below the origin, PC >= 0xFE00 or HALT, with every resuming command issued there, followed by end of input.",
+        "level_text": "Bounded-progress monitor (the decidable restatement of the liveness claim): for every session the run-loop iteration count (tick hook) must stay within 2*(instructions executed + commands read + 1) + 8, and a session whose reference model terminates must terminate; non-termination is decided on logical iterations (fuel), never wall clock. Workload: programs that reach PC=0xFFFF by computed jump, PC below the origin, PC >= 0xFE00 or HALT, with every resuming command issued there, followed by end of input. At the CLI, sessions through the real --command and stdin readers with scripts ending in every awkward way (no final newline, comment-like text, stray quotes, NUL), judged on CPU time (RLIMIT_CPU), never wall clock.",
         "level_note": "Unbounded 'eventually terminates' is not decidable by monitoring; the bound is what the property's second sentence states.",
         "technique": "runtime monitoring: counter invariant over tick/fetch/command hooks with logical fuel",
         "rule": "case = (program ending outside user space / at 0xFFFF / on HALT, script of resuming commands, EOF); all sessions are non-trivial; distinct = hash of source and script",
